@@ -50,7 +50,10 @@ MsgProto(i, msgNo) ==
 Tail3(kind) == IF kind = "junk" THEN << 171, 205, 239 >> ELSE IF kind = "pad" THEN << 0, 0, 0, 0 >> ELSE << >>
 
 FrameOf(i, ver, mt, ctr, proto, seg, pl, tailKind) ==
-    FrameHdr(ver, Ep(i)[1], mt, Ep(i)[2], ctr) \o MsgHdr([proto EXCEPT !.mt = mt], seg, Len(pl)) \o pl \o Tail3(tailKind)
+    (* continuation segments carry another flag bit (overflow) than the first: the message keeps the first segment's header *)
+    FrameHdr(ver, Ep(i)[1], mt, Ep(i)[2], ctr)
+        \o MsgHdr([proto EXCEPT !.mt = mt, !.fl = IF seg \in {SegMid, SegLast} THEN 32 + (@ % 32) ELSE @], seg, Len(pl))
+        \o pl \o Tail3(tailKind)
 
 Idle == [busy |-> FALSE]
 Snd0 == [ctr |-> Ctr0, msgNo |-> 0, acc |-> Idle, last |-> << >>, held |-> << >>]
